@@ -339,3 +339,25 @@ pub fn div_short<const NN: usize, const ND: usize, const DC: u64>(nd: &mut Nd) {
     }
     chk!(nd, "C14.div.short.remainder_is_numerator", ok);
 }
+
+/// div_3x2 for a CONSTANT normalised divisor d = DH*2^64 + DL (one harness per divisor) and EVERY numerator: the harness
+/// draws any quotient limb q and any remainder r < d, builds u = q*d + r exactly and demands (q, r) back.  With d constant
+/// the reciprocal, the debug assertion that re-derives it and one operand of every product are constants, which is what
+/// makes this kernel tractable at all (with a symbolic divisor it did not finish in 3000 s).
+pub fn div_3x2_const<const DH: u64, const DL: u64>(nd: &mut Nd) {
+    let d: u128 = ((DH as u128) << 64) | DL as u128;
+    let q = nd.u64();
+    let r = nd.u128();
+    nd.assume(r < d);
+    let mut u = [0u64; 3];
+    let _ = add_at::<3>(&mut u, (q as u128) * (DL as u128), 0);
+    let _ = add_at::<3>(&mut u, (q as u128) * (DH as u128), 1);
+    let _ = add_at::<3>(&mut u, r, 0);
+    let u21 = ((u[2] as u128) << 64) | u[1] as u128;
+    let v = dv::reciprocal_2(d);
+    cov!(nd, "exact-multiple", r == 0 && q > 1 << 63);
+    cov!(nd, "top-quotient", q == u64::MAX);
+    let got = dv::div_3x2(u21, u[0], d, v);
+    chk!(nd, "C14.div_3x2.quotient", got.0 == q);
+    chk!(nd, "C14.div_3x2.remainder", got.1 == r);
+}
